@@ -98,6 +98,7 @@ static size_t g_ar_bump = 0, g_ar_hw = 0, g_ar_start = 0;
 static uint32_t g_fl_head[NCLS], g_fl_tail[NCLS], g_fl_len[NCLS], g_fl_pre[NCLS];   // offsets / 16; 0 = empty
 static bool g_ar_lifo = false; static uint32_t g_ar_quarantine = 0;
 static int64_t g_ar_live = 0; static bool g_ar_force_rewind = false;
+static size_t g_ar_floor = 0; static int64_t g_ar_preserved = 0;   // blocks below the floor survived a fault-free execution: never recycled
 static bool g_ar_enabled = false;
 
 static inline Hdr* ar_hdr(uint32_t off16) { return (Hdr*)(g_ar_base + (size_t)off16 * 16); }
@@ -126,12 +127,13 @@ static void arena_reset(uint64_t env) {
   if (!g_ar_enabled) return;
   uint64_t s = env * 0xD1342543DE82EF95ull + 99;
   auto nx = [&]() { s ^= s << 13; s ^= s >> 7; s ^= s << 17; return s; };
-  bool rewind = g_ar_live == 0 || g_ar_force_rewind || g_ar_bump > (AR_CAP / 2);
-  // live blocks of a fault-free execution may still be referenced (a reported leak, or a permanent allocation
-  // inside libstdc++): then the arena continues behind them instead of recycling them
+  // Blocks that were still live when a fault-free execution ended may be referenced from static or thread-local
+  // storage (a cache inside the library or libstdc++): everything below g_ar_floor is kept for good. Blocks leaked by
+  // an execution that injected a fault are unreferenced garbage and are recycled.
+  bool rewind = (g_ar_live - g_ar_preserved) == 0 || g_ar_force_rewind;
   if (rewind) {
-    if (__asan_poison_memory_region && g_ar_hw) __asan_poison_memory_region(g_ar_base, g_ar_hw);
-    g_ar_bump = 0; g_ar_hw = 0; g_ar_live = 0;
+    if (__asan_poison_memory_region && g_ar_hw > g_ar_floor) __asan_poison_memory_region(g_ar_base + g_ar_floor, g_ar_hw - g_ar_floor);
+    g_ar_bump = g_ar_floor; g_ar_hw = g_ar_floor; g_ar_live = g_ar_preserved;
   }
   g_ar_force_rewind = false;
   for (int c = 0; c < NCLS; ++c) g_fl_head[c] = g_fl_tail[c] = g_fl_len[c] = g_fl_pre[c] = 0;
@@ -176,11 +178,16 @@ static void arena_free(Hdr* h, void* user) {
   int c = (int)h->pad[1];
   if (__asan_poison_memory_region) __asan_poison_memory_region(user, h->size);
   uint32_t o = (uint32_t)(((char*)h - g_ar_base) / 16);
+  if ((size_t)o * 16 < g_ar_floor) { --g_ar_preserved; --g_ar_live; if (__asan_poison_memory_region) __asan_poison_memory_region(h, sizeof(Hdr)); return; }
   fl_push(c, o, g_ar_lifo);
   if (__asan_poison_memory_region) __asan_poison_memory_region(h, sizeof(Hdr));
   --g_ar_live;
 }
 void rt_arena_expect_leaks() { g_ar_force_rewind = true; }
+void rt_arena_preserve_live() {
+  if (!g_ar_enabled || g_ar_live == g_ar_preserved) return;
+  g_ar_floor = (g_ar_bump + 4095) & ~(size_t)4095; g_ar_preserved = g_ar_live;
+}
 
 void rt_set_env(uint64_t env) {
   rt_env_release();
